@@ -2031,6 +2031,7 @@ fn make_case(corpus: &Corpus, space: &Space, run_seed: u64, id: u64) -> Case {
 // ------------------------------------------------------------------ monitors
 
 struct Finding {
+	ctx: String,
 	sig: String,
 	event: &'static str,
 	stage: &'static str,
@@ -2059,6 +2060,8 @@ struct Mon {
 	max_single: u64,
 	max_peak: u64,
 	prng: Prng,
+	/// arguments of the post-decode stage being run (for reproducers)
+	ctx: String,
 }
 
 fn norm_loc(loc: &str) -> (String, bool) {
@@ -2107,6 +2110,7 @@ impl Mon {
 			max_single: 0,
 			max_peak: 0,
 			prng,
+			ctx: String::new(),
 		}
 	}
 
@@ -2133,7 +2137,7 @@ impl Mon {
 		let coarse = if decode { "decode" } else { "post" };
 		self.max_single = self.max_single.max(st.max_single as u64);
 		self.max_peak = self.max_peak.max(st.peak_live as u64);
-		let mut outcome = String::new();
+		let mut outcome;
 		let mut value = None;
 		match res {
 			Err(pr) => {
@@ -2152,6 +2156,7 @@ impl Mon {
 						)
 					};
 					self.findings.push(Finding {
+						ctx: if decode { String::new() } else { self.ctx.clone() },
 						sig,
 						event: "panic",
 						stage: name,
@@ -2178,6 +2183,7 @@ impl Mon {
 		if st.max_single as u64 > single_budget(self.len) || st.peak_live as u64 > peak_budget(self.len)
 		{
 			self.findings.push(Finding {
+				ctx: if decode { String::new() } else { self.ctx.clone() },
 				sig: format!("event=over-alloc;decoder={};stage={}", sig_dec(self.dec), coarse),
 				event: "over-alloc",
 				stage: name,
@@ -2290,10 +2296,11 @@ fn announced_len(data: &[u8], net: u8) -> u64 {
 	best
 }
 
-fn make_bitmap(p: &mut Prng, n_leaves: u64) -> croaring::Bitmap {
+fn make_bitmap(p: &mut Prng, n_leaves: u64) -> (croaring::Bitmap, String) {
 	let n = n_leaves.min(5000) as u32;
 	let mut b = croaring::Bitmap::new();
-	match p.below(7) {
+	let pat = p.below(7);
+	match pat {
 		0 => {
 			for i in 0..n {
 				b.add(i);
@@ -2326,7 +2333,13 @@ fn make_bitmap(p: &mut Prng, n_leaves: u64) -> croaring::Bitmap {
 			}
 		}
 	}
-	b
+	let d = format!(
+		"{} over {} leaves ({} set)",
+		["all", "none", "even", "odd", "first", "last", "random"][pat as usize],
+		n,
+		b.cardinality()
+	);
+	(b, d)
 }
 
 fn seg_err(e: grin_core::core::SegmentError) -> String {
@@ -2358,13 +2371,19 @@ fn seg_post<T: PMMRIndexHashable>(m: &mut Mon, w: &WCtx, seg: &Segment<T>, kind:
 	}
 	for fi in chosen {
 		let f = &fxs[fi];
-		let mut bitmaps: Vec<Option<croaring::Bitmap>> = vec![None];
+		let mut bitmaps: Vec<(Option<croaring::Bitmap>, String)> = vec![(None, "None".to_string())];
 		if kind == FX_OUT || kind == FX_RP {
-			bitmaps.push(Some(make_bitmap(&mut m.prng, f.n_leaves)));
-			bitmaps.push(Some(make_bitmap(&mut m.prng, f.n_leaves)));
+			let (b1, d1) = make_bitmap(&mut m.prng, f.n_leaves);
+			bitmaps.push((Some(b1), d1));
+			let (b2, d2) = make_bitmap(&mut m.prng, f.n_leaves);
+			bitmaps.push((Some(b2), d2));
 		}
-		for bm in bitmaps.iter() {
+		for (bm, bdesc) in bitmaps.iter() {
 			let bm = bm.as_ref();
+			m.ctx = format!(
+				"mmr_size={} ({} leaves) bitmap={} root={:?}",
+				f.size, f.n_leaves, bdesc, f.root
+			);
 			m.stage("Segment::root", false, || {
 				seg.root(f.size, bm).map(|_| ()).map_err(seg_err)
 			});
@@ -2406,12 +2425,14 @@ fn bitmapseg_post(m: &mut Mon, w: &WCtx, bs: BitmapSegment, aux: u32) {
 /// What a serving node computes from a requested identifier before reading its MMRs.
 fn segid_post(m: &mut Mon, w: &WCtx, id: SegmentIdentifier) {
 	for size in [1u64, 4, 7, w.kern_mmr.1, 1_000_003] {
+		m.ctx = format!("mmr_size={}", size);
 		m.stage("SegmentIdentifier::segment_pos_range", false, || {
 			let (a, b) = id.segment_pos_range(size);
 			std::hint::black_box((a, b, id.segment_capacity()));
 			Ok(())
 		});
 	}
+	m.ctx = format!("VecBackend MMR of 40 leaves (size {})", w.kern_mmr.1);
 	m.stage("Segment::from_pmmr(non-prunable)", false, || {
 		let ro = ReadonlyPMMR::at(&w.kern_mmr.0, w.kern_mmr.1);
 		Segment::from_pmmr(id, &ro, false).map(|_| ()).map_err(seg_err)
@@ -2479,7 +2500,7 @@ fn codec_case(m: &mut Mon, w: &WCtx, c: &Case) {
 			return;
 		}
 	};
-	let mut writer = None;
+	let mut writer;
 	if c.bytes.len() <= 32 * 1024 {
 		let mut cl = client;
 		if let Err(e) = cl.write_all(&c.bytes) {
@@ -2915,7 +2936,7 @@ fn worker_main(args: &[String]) {
 				emit(json!({
 					"t": "f", "sig": f.sig, "id": id, "dec": dname, "stage": f.stage, "class": cname,
 					"ver": c.ver, "net": c.net, "len": c.bytes.len(), "event": f.event,
-					"msg": f.msg, "loc": f.loc, "max_single": f.max_single, "peak": f.peak,
+					"msg": f.msg, "loc": f.loc, "max_single": f.max_single, "peak": f.peak, "ctx": f.ctx,
 					"desc": c.desc, "hex": hex_of(&c.bytes[..shown]), "hex_truncated": shown < c.bytes.len(),
 				}));
 			}
@@ -2980,9 +3001,14 @@ impl Agg {
 			}
 		}
 		let len = v.get("len").and_then(|x| x.as_u64()).unwrap_or(u64::MAX);
+		let idv = v.get("id").and_then(|x| x.as_u64()).unwrap_or(u64::MAX);
 		let better = match &fi.best {
 			None => true,
-			Some(b) => len < b.get("len").and_then(|x| x.as_u64()).unwrap_or(u64::MAX),
+			Some(b) => {
+				let bl = b.get("len").and_then(|x| x.as_u64()).unwrap_or(u64::MAX);
+				let bi = b.get("id").and_then(|x| x.as_u64()).unwrap_or(u64::MAX);
+				len < bl || (len == bl && idv < bi)
+			}
 		};
 		if better && v.get("len").is_some() {
 			fi.best = Some(v.clone());
@@ -3507,7 +3533,7 @@ fn parent_main() {
 		let g = |k: &str| b.get(k).map(|x| x.to_string()).unwrap_or_default();
 		let hex = b.get("hex").and_then(|x| x.as_str()).unwrap_or("");
 		let what = format!(
-			"{} occurrence(s); decoders {:?}; stages {:?}; classes {:?}. Minimal reproducer: decoder={} version={} net={} class={} [{}] len={} bytes={}{} -> {} {} {}",
+			"{} occurrence(s); decoders {:?}; stages {:?}; classes {:?}. Minimal reproducer: decoder={} version={} net={} class={} [{}] len={} bytes={}{} -> {} {} {}{}",
 			fi.count.max(1),
 			fi.decs,
 			fi.stages,
@@ -3523,6 +3549,10 @@ fn parent_main() {
 			g("event"),
 			b.get("msg").and_then(|x| x.as_str()).unwrap_or(""),
 			b.get("loc").and_then(|x| x.as_str()).unwrap_or(""),
+			match b.get("ctx").and_then(|x| x.as_str()) {
+				Some(c) if !c.is_empty() => format!(" [stage {} with {}]", g("stage"), c),
+				_ => String::new(),
+			},
 		);
 		run.violation(sig, &what, json!({"case_ids": fi.ids, "min": b}));
 	}
